@@ -278,6 +278,17 @@ AUDIT = {
             'all ordered configuration pairs; the DA tag of every read through MoleculeIterator and write_tags across 9 resolver steps.',
             'phased=False, missing genotypes and multi-base sites are only covered by the all-modes-agree comparison; outside a bounded '
             'resolver\'s window an answer may be missing but never wrong; uglyMode, sites-only and un-indexed VCFs are not generated.'),
+    'C20': ('Audit extension: a fault before EVERY executed source line of the three pipeline modules (sys.settrace in the forked '
+            'child; exceptions at first/last occurrence, kills one per distinct on-disk state, interrupts one per (state, stack); thorough: '
+            'every occurrence); partial effects (truncated .bai, sort / merge dying after a valid empty BAM, status writes failing or left '
+            'partial, every file-system call), an OSError kind, triple sort failures, pairs of faults; options (-head, --no_rejects, -contig, '
+            '-skip_contig, --consensus, --no_source_reads), output-path letters, a one-file merge, a modelled samtools; re-runs over the '
+            'output of a run on ANOTHER input with old mtimes; the cluster mode under the local scheduler with stand-in tools; a real Pool '
+            'with raising / dying workers; every BGZF block of the input damaged, and an impossible record in front of every record of an '
+            'unmapped tail.',
+            'Kills land at Python-level line boundaries and modelled mid-write points; a hung execution is killed after 60 s and judged like '
+            'a kill; -head, --no_rejects and --no_source_reads outputs are judged on existence, EOF, order and index only; a read-only '
+            'directory is represented by OSError at every file-system call (the checks run as root).'),
     'C19': ('Audit extension: the third anchored writer bamSplitByTag.py (all words over a read alphabet x max_handles x head x {one call, the '
             'real __main__ loop via runpy}; pysam replaced by a counting pass-through, Pool by the owned scheduler; command lines in a fresh '
             'interpreter with the real Pool); FastqHandle(single_cell) single-end and without cell index; HandleLimiter forceAppend and an '
